@@ -14,14 +14,14 @@ CLOSERS = {'yarel::object::ObjFiber::close_upvalues', 'yarel::object::ObjFiber::
 
 def run(rep):
     w = rep.world('dev')
-    s1(rep, w)
-    s2(rep, w)
-    s3(rep, w)
-    s4(rep, w)
-    s5(rep, w)
-    s6(rep, w)
+    rep.guard(s1, rep, w)
+    rep.guard(s2, rep, w)
+    rep.guard(s3, rep, w)
+    rep.guard(s4, rep, w)
+    rep.guard(s5, rep, w)
+    rep.guard(s6, rep, w)
     import c08
-    c08.x9(rep, w)    # a global name is looked up in the module of the running frame: the cached module follows every frame change
+    rep.guard(c08.x9, rep, w)    # a global name is looked up in the module of the running frame: the cached module follows every frame change
 
 
 def s1(rep, w):
